@@ -1009,6 +1009,10 @@ def oracle_norm(a, icfg, scfg, with_data=True, opts=None):
         ordered_cfg = not (icfg["itype"] == "quantile" and icfg["lower_quantile"] > icfg["upper_quantile"])
         if icfg["itype"] == "manual" and icfg.get("vmin") is not None and icfg.get("vmax") is not None:
             ordered_cfg = icfg["vmin"] <= icfg["vmax"]
+        if icfg["itype"] == "manual" and (icfg.get("vmin") is None) != (icfg.get("vmax") is None):
+            # one limit given, the other taken from the data: a given upper limit below the data's minimum (or a given
+            # lower limit above their maximum) is a caller's disordered interval like vmin > vmax, not the code's doing
+            ordered_cfg = (icfg["vmax"] >= float(min(fin))) if icfg.get("vmin") is None else (icfg["vmin"] <= float(max(fin)))
         if icfg["itype"] == "centered" and icfg.get("half_range") is not None:
             ordered_cfg = icfg["half_range"] >= 0
         if ordered_cfg and vmin > vmax:
